@@ -60,7 +60,8 @@ def _clouds(tier, seed):
 
 
 def _weights(n):
-    return [None, [0.5 + 0.25 * (i % 3) + 0.05 * i for i in range(n)], [float(1 + (i * 2) % 3) for i in range(n)]]
+    light = [1e-3 if i < n // 2 else 1.0 for i in range(n)]  # one mode three orders of magnitude lighter
+    return [None, [0.5 + 0.25 * (i % 3) + 0.05 * i for i in range(n)], [float(1 + (i * 2) % 3) for i in range(n)], light]
 
 
 def _grids(D, tier):
@@ -118,6 +119,8 @@ def cases(group):
                 if group["tier"] == "quick" and group["grid_label"] == "subset" and (wi + si + ci) % 3:
                     continue
                 yield dict(label=group["label"], D=D, G=G, w=w, setting=st, cell=cell)
+                if (wi + si + ci) % 4 == 1:
+                    yield dict(label=group["label"], D=D, G=G, w=w, setting=st, cell=cell, used=True)
 
 
 # --------------------------------------------------------------------------------------
@@ -180,13 +183,20 @@ def _mixture(Q, D, w, G, H, labels, cell):
     return np.array(out), branches
 
 
-def _fit(D, w, G, setting, cell):
+def _fit(D, w, G, setting, cell, used=False):
     from skmatter.neighbors import SparseKDE
 
     kw = dict(setting)
     if cell is not None:
         kw["metric_params"] = {"cell_length": np.array(cell, float)}
     m = SparseKDE(np.array(D, float), None if w is None else np.array(w, float), **kw)
+    if used:  # a USED estimator: fitted on another grid of the same size and queried before the fit that is judged
+        Go = np.array(G, float)[::-1] * 1.0 + 0.0123  # another grid of the same size (slightly displaced, other order)
+        try:
+            m.fit(Go)
+            m.score_samples(Go + 0.05)
+        except Exception:
+            pass
     rec = []
     orig = getattr(m, "_bandwidth_estimation_from_localization", None)
     if callable(orig):
@@ -266,7 +276,7 @@ def check(case):
 
     def fit(Dx, wx, Gx):
         r.transitions += 1
-        return _fit(Dx, wx, Gx, case["setting"], cell)
+        return _fit(Dx, wx, Gx, case["setting"], cell, used=bool(case.get("used")))
 
     try:
         m, rec = fit(D, case["w"], G)
@@ -340,7 +350,13 @@ def check(case):
     far_any = any(b[1] > 0 for b in branches)
     r.nontrivial = (near_any and far_any) or (len(G) >= 3 and len({round(float(x), 9) for x in W}) >= 2)
 
-    # ---- invariances
+    # ---- invariances (where the fit is a continuous function of the input: the branch "fpoints <= grid weight"
+    # is decided by rounding when a grid weight equals fpoints, e.g. 4 of 5 equal descriptors and fpoints=0.8)
+    if "fpoints" in case["setting"] and (np.abs(W - case["setting"]["fpoints"]) <= 1e-9).any():
+        r.count("invariances_unjudgeable_grid_weight_equals_fpoints")
+        r.outcome = [np.round(got[fin], 6).tolist()]
+        return r
+
     def compare(tag, D2, w2, G2, Q2, kind):
         try:
             m2, _ = fit(D2, w2, G2)
